@@ -81,7 +81,7 @@ def _find_in_body(body, name):
     return found
 
 
-def extract(relpath, qualpath):
+def extract(relpath, qualpath, _depth=0):
     src, tree = module_ast(relpath)
     parts = qualpath.split('.')
     body = tree.body
@@ -103,6 +103,13 @@ def extract(relpath, qualpath):
         name = p
         while True:
             f = _find_in_body(body, name)
+            if f is None and i == 0 and hops == 0 and _depth < 3:
+                # defined in another module of the package and imported here under this name: follow the import
+                imp = module_imports(relpath, package_relative=True).get(name)
+                if imp and imp[1] and imp[0].split('.')[0] == 'kingdon':
+                    rel2 = imp[0].replace('.', '/') + '.py'
+                    if os.path.exists(os.path.join(REPO, rel2)):
+                        return extract(rel2, '.'.join([imp[1]] + parts[1:]), _depth + 1)
             if f is None:
                 raise NotFound(f'{relpath}: {qualpath}: `{name}` not found')
             if f[0] == 'alias':
@@ -173,7 +180,7 @@ def class_info(relpath, clsname):
     return [], []
 
 
-def module_imports(relpath):
+def module_imports(relpath, package_relative=False):
     """{local name: (module, attribute or None)} for the module-level import statements of the file"""
     src, tree = module_ast(relpath)
     out = {}
@@ -184,6 +191,10 @@ def module_imports(relpath):
         elif isinstance(st, ast.ImportFrom) and st.module and st.level == 0:
             for a in st.names:
                 out[a.asname or a.name] = (st.module, a.name)
+        elif package_relative and isinstance(st, ast.ImportFrom) and st.module and st.level == 1:
+            pkg = os.path.dirname(relpath).replace('/', '.')
+            for a in st.names:
+                out[a.asname or a.name] = (pkg + '.' + st.module, a.name)
     return out
 
 
